@@ -74,6 +74,7 @@ func main() {
 	c.Family("eq", mautilReq, "eq_case_ok", 500)
 	c.Family("sync", maurlReq, "sync_case_ok", 300)
 	c.Family("strs", mautilReq, "strs_case_ok", 400)
+	c.Family("same", mautilReq, "same_case_ok", 400)
 	c.Family("peers", mautilReq, "peers_case_ok", 400)
 	c.Family("netaddr", maurlReq, "netaddr_case_ok", 400)
 	initPool()
@@ -139,6 +140,11 @@ func runReplay(c *vlib.Ctx, r replay) {
 			out, err := mautil.MultiaddrStringToNetAddr(r.A[0])
 			fmt.Println(" ->", out, err)
 		}
+	case "same", "addrchange":
+		w := newSyncWorld()
+		defer w.close()
+		runSameAddrs(c, w)
+		runAddrChange(c, w)
 	case "sync":
 		p, _ := hex.DecodeString(r.Path)
 		w := newSyncWorld()
